@@ -1023,6 +1023,22 @@ _PREV_REVIEWED = {
 }
 
 
+def _emptiness(pc, X):
+    """True: pc entails that container X is empty; False: entails non-empty; None: neither (the usual spellings of the test are known)."""
+    X = X.replace(" ", "")
+    for a in atoms(pc):
+        a_ = a.replace(" ", "")
+        pos = a_ in ("%s.empty()" % X, "(%s.size()==0)" % X, "(0==%s.size())" % X)
+        neg = a_ in ("(%s.size()>0)" % X, "(%s.size()!=0)" % X, "%s.size()" % X, "(%s.size()>=1)" % X, "(0<%s.size())" % X)
+        if not (pos or neg):
+            continue
+        if entails(pc, ("atom", a)):
+            return True if pos else False
+        if entails(pc, ("not", ("atom", a))):
+            return False if pos else True
+    return None
+
+
 def rule_prev_of_end(chk, prog):
     r = chk.rule("PREV-OF-END-NONEMPTY", "std::prev(c.end()) -- `stop at the last element` -- is evaluated only where c cannot be empty: the path "
                  "condition entails !c.empty(), or the site is one of the two reviewed ones in Tree::addConstraints; for an empty std::map "
@@ -1045,8 +1061,7 @@ def rule_prev_of_end(chk, prog):
                 r.ok(inst, fn.loc(c), "reviewed: " + _PREV_REVIEWED[(fn.q, X)])
                 continue
             pc = path_condition(fn, c, inline=False, early=True)
-            ats = [a for a in atoms(pc) if a.replace(" ", "") == "%s.empty()" % X]
-            ok = bool(ats) and entails(pc, ("not", ("atom", ats[0])))
+            ok = _emptiness(pc, X) is False
             (r.ok if ok else r.bad)(inst, fn.loc(c), "" if ok else "nothing excludes an empty %s here: std::prev of the end of an empty container is undefined" % X)
     for k in _PREV_REVIEWED:
         if k not in seen:
@@ -1099,8 +1114,7 @@ def rule_callers_topology_kept(chk, prog):
     for c in asg:
         r.count()
         pc = path_condition(fn, c, inline=False, early=True)
-        ats = [a for a in atoms(pc) if a.replace(" ", "") == "topologyNodes.empty()"]
-        ok = bool(ats) and entails(pc, ("atom", ats[0]))
+        ok = _emptiness(pc, "topologyNodes") is True
         (r.ok if ok else r.bad)("topologyNodes = ... in makeFeasible", fn.loc(c), "" if ok else
                                 "the add-on's nodes are replaced whatever they were (condition %s): routes handed over by the caller keep pointing at the old nodes" % show(pc))
 
